@@ -229,9 +229,7 @@ def pattern_worker(job):
         # the solver refuses a net without supplied junction; the graph must agree that nothing is supplied
         if "All nodes are set out of service" in (err or ""):
             viol.append(_pv(job, "solver: nothing supplied, graph: supplied %s" % sorted(set(net.junction.index) - uj - oos)))
-    # edges
-    mg = top.create_nxgraph(net)
-    want = []
+    # edges: defaults, valve positions ignored, pipe in_service flags ignored
     pv_closed = set()
     if len(net.valve):
         for ix in net.valve.index:
@@ -239,18 +237,26 @@ def pattern_worker(job):
                 pv_closed.add(int(net.valve.at[ix, "element"]))
     jin = set(net.junction.index[net.junction.in_service.values])
     from svx.common import branch_rows
-    for tbl, ix, fj, tj in branch_rows(net):
-        act = net[tbl].at[ix, "opened" if tbl == "valve" else "in_service"]
-        if not act or fj not in jin or tj not in jin:
-            continue
-        if tbl == "pipe" and ix in pv_closed:
-            continue
-        want.append((tbl, ix, fj, tj))
-    got = [(k[0], k[1], min(a, b), max(a, b)) for a, b, k in mg.edges(keys=True)]
-    want_n = sorted((t, i, min(a, b), max(a, b)) for t, i, a, b in want)
-    n_ev += 1
-    if sorted(got) != want_n:
-        viol.append(_pv(job, "graph edges %s, expected one per live junction-junction element %s" % (sorted(got), want_n)))
+    for args in ({}, {"respect_status_valves": False}, {"respect_status_pipes": False}):
+        mg = top.create_nxgraph(net, **args)
+        want = []
+        for tbl, ix, fj, tj in branch_rows(net):
+            act = net[tbl].at[ix, "opened" if tbl == "valve" else "in_service"]
+            if tbl == "valve" and args.get("respect_status_valves") is False:
+                act = True
+            if tbl == "pipe" and args.get("respect_status_pipes") is False:
+                act = True
+            if not act or fj not in jin or tj not in jin:
+                continue
+            if tbl == "pipe" and ix in pv_closed and args.get("respect_status_valves") is not False:
+                continue        # a closed valve attached to the pipe removes the pipe's edge (unless valve positions are ignored)
+            want.append((tbl, ix, fj, tj))
+        got = [(k[0], k[1], min(a, b), max(a, b)) for a, b, k in mg.edges(keys=True)]
+        want_n = sorted((t, i, min(a, b), max(a, b)) for t, i, a, b in want)
+        n_ev += 1
+        if sorted(got) != want_n:
+            viol.append(_pv(job, "create_nxgraph(%s): graph edges %s, expected one per live junction-junction element %s" % (
+                args, sorted(got), want_n)))
     D.STATS.obligations += n_ev
     D.STATS.rewriter += n_ev - len(viol)
     return finish_worker(job, H.Exploration(), viol, evaluated=n_ev)
